@@ -28,9 +28,19 @@ def main(tier, replay, t0):
                 if x.get("matrix"):
                     continue
                 g = c.gen[x["id"]]
+                mv = x["opt"].get("mv", "rust")
+                if g.get("result") == "panic" and "untime-sized array" not in (g.get("panic") or ""):
+                    # the only documented refusals of struct generation are the two runtime-array
+                    # ones; anything else leaves a valid member type without a Rust field
+                    why = (g.get("panic") or "").split(" @ ")[0][:60]
+                    viol.append(Violation("member-type-refused", "%s:%s" % (
+                        mv, why.replace(" ", "-")),
+                        "struct generation panics (%s) for a shader naga accepts: some member "
+                        "type has no Rust type under %s" % (g.get("panic"), mv),
+                        {"case_id": c.id, "wgsl": c.wgsl, "options": x["opt"]}))
+                    continue
                 if g.get("result") != "ok":
                     continue
-                mv = x["opt"].get("mv", "rust")
                 base = {"case_id": c.id, "wgsl": c.wgsl, "options": x["opt"]}
                 inv = {s["name"]: s for s in g.get("inv", {}).get("structs", [])}
                 # order and names from the item inventory (works even if the module is rejected)
@@ -86,7 +96,18 @@ def main(tier, replay, t0):
                     leaf_cells[(W.wgsl(leaf) if leaf[0] != "st" else "struct", mv)] = 1
                     if m["ty"][0] in ("a", "st"):
                         nontrivial.add((c.id, x["id"], e["struct"], e["field"]))
-                    if not e["eq"]:
+                    wide_int = leaf[0] == "v" and leaf[2] in ("i64", "u64")
+                    if wide_int and m["ty"][0] == "v" and e.get("size", 1 << 30) < 8 * leaf[1]:
+                        viol.append(Violation("field-lane-width", "%s:%s" % (mv, W.wgsl(leaf)),
+                                              "%s.%s: WGSL %s has %d lanes of 64 bits, the Rust "
+                                              "field %s is only %d bytes" % (
+                                                  e["struct"], e["field"], W.wgsl(leaf), leaf[1],
+                                                  e["type_name"], e["size"]),
+                                              dict(base, field=e)))
+                    elif wide_int and mv == "glam" and e["type_name"].replace(" ", "") == \
+                            W.rust_type(m["ty"], "rust").replace(" ", ""):
+                        pass  # plain arrays are a faithful fallback where glam is not used
+                    elif not e["eq"]:
                         viol.append(Violation("field-type", "%s:%s" % (
                             mv, W.wgsl(m["ty"]) if leaf[0] != "st" else "nested"),
                             "%s.%s: WGSL %s under %s should be %s, module has %s" % (
